@@ -40,7 +40,10 @@ TASK_ENDS = {"ok": {"hook_exit": 0, "hook_voluntary": True}, "exit1": {"hook_exi
 
 
 def scenario(sid, case, gate=None, timeout="5s", gap_ms=0, pad=False, taskhook=None, nonumber=False, blank=None, both=False,
-             sametext=False, destroy_during=False, task_ids=("h1",), late_then=None):
+             sametext=False, destroy_during=False, task_ids=("h1",), late_then=None, lowercase=False, class_ttl=False):
+    # lowercase: the moment names of the hooks are spelled in lower case (they then name no moment of the state machine: the
+    # hooks are never started); class_ttl: the core forgets task classes after one second unless they are in use - a second
+    # environment with another workflow is created two seconds after the first (every creation sweeps the class cache)
     # task_ids: which hooks are hook TASKS when taskhook is given; late_then = (late_ms, end): the hook task hangs the first
     # time it is triggered (the core's hook timeout decides), its process ends late_ms after the trigger, and the next time it
     # is triggered it ends as `end`
@@ -53,6 +56,10 @@ def scenario(sid, case, gate=None, timeout="5s", gap_ms=0, pad=False, taskhook=N
     hooks = {}
     files_extra, scripts = {}, []
     ex = (lambda m, w: "%s%+04d" % (m, w)) if pad else expr
+    if lowercase:
+        case = json.loads(json.dumps(case))
+        for h in case["hooks"]:
+            h["tm"], h["am"] = h["tm"].lower(), h["am"].lower()
     for h in sorted(case["hooks"], key=lambda x: x["id"]):
         if taskhook and (h["id"] in task_ids or both):
             hcls = "ehs%d%s" % (sid, h["id"])
@@ -88,6 +95,13 @@ def scenario(sid, case, gate=None, timeout="5s", gap_ms=0, pad=False, taskhook=N
             scripts.append({"class": xcls, "hook_silent": True})
     wf = "ehwf%d" % sid
     steps = [{"do": "create", "env": "e1", "wf": wf}]
+    core = {}
+    if class_ttl:
+        cls2, wf2 = "ehs%dz" % sid, "ehwf%dz" % sid
+        files_extra["tasks/%s.yaml" % cls2] = cs.task_class(cls2)
+        files_extra["workflows/%s.yaml" % wf2] = cs.workflow(wf2, cs.role_task("z1", cls2))
+        core = {"flags": ["--taskClassCacheTTL=1s"]}
+        steps += [{"do": "sleep", "ms": 2000}, {"do": "create", "env": "e2", "wf": wf2}]
     if nonumber:
         # the shared run counter cannot be advanced: the START must fail before a run exists (no number, no stamps, no end-of-run record)
         steps.append({"do": "kvfault", "kind": "put500"})
@@ -119,6 +133,8 @@ def scenario(sid, case, gate=None, timeout="5s", gap_ms=0, pad=False, taskhook=N
             steps.append({"do": "sleep", "ms": gap_ms})   # lets a declared call timeout elapse before the next request
     if nonumber:
         steps.append({"do": "kvfault", "kind": "off"})
+    if class_ttl:
+        steps.append({"do": "destroy", "env": "e2", "force": True})
     if destroy_during:
         steps.append({"do": "settle", "ms": 20})
     else:
@@ -136,7 +152,7 @@ def scenario(sid, case, gate=None, timeout="5s", gap_ms=0, pad=False, taskhook=N
     files.update(files_extra)
     fam = "EnvHooks" + ("-gated" if gate else "") + ("-slow" if gap_ms else "") + ("-padded" if pad else "") + ("-taskhook" if taskhook else "")
     return {"id": sid, "family": fam, "agents": cs.DEFAULT_AGENTS, "files": files,
-            "core": {}, "scripts": scripts, "hooks": hooks, "steps": steps, "model": model}
+            "core": core, "scripts": scripts, "hooks": hooks, "steps": steps, "model": model}
 
 
 def project(lines):
@@ -353,6 +369,16 @@ def run_family(ctx, pid):
         sid += 1
         ntask += 1
         scenarios.append(scenario(sid, c, taskhook=("exit1", "ok"), task_ids=("h2",), late_then=(1400, "exit1")))
+    # moment names spelled in lower case name no moment: such hooks are never started (and nothing waits for them)
+    for c in single_ok[:(4 if quick else 20)]:
+        sid += 1
+        scenarios.append(scenario(sid, c, lowercase=True))
+    # a critical hook TASK that fails, in a core that forgets unused task classes after one second, after another workflow was
+    # loaded (the class of a task that exists is in use)
+    for c in [x for x in single if next(h for h in x["hooks"] if h["id"] == "h1")["crit"]][:(2 if quick else 8)]:
+        sid += 1
+        ntask += 1
+        scenarios.append(scenario(sid, c, taskhook=("exit1", "ok"), class_ttl=True))
     # hook tasks that end well before the executor has answered the trigger command
     for c in single_ok[:(6 if quick else 30)]:
         sid += 1
